@@ -187,6 +187,7 @@ class Engine:
             elif isinstance(it, R.Ins):
                 self.ins.append(it)
         self.safety = []        # (cond list, text, formula)
+        self.access_of = {}     # id(formula) -> (kind, section, address term, nbytes, ap, fp, extents) for the replay of refuted SAFE obligations
         self.steps = 0
         self.max_steps = 200000
         self.solver_time = 0.0
@@ -242,14 +243,17 @@ class Engine:
         c = self.ctx
         if section == 'state':
             self.safety.append((list(cond), f'load {n} state bytes: {what}', self.safe_state(st, a, n)))
+            self.access_of[id(self.safety[-1][2])] = ('load', 'state', a, n, st.regs['ap'], st.regs['fp'], tuple(st.extents))
             mem = st.mem
         else:
             self.safety.append((list(cond), f'load {n} const bytes: {what}', self.safe_const(a, n)))
+            self.access_of[id(self.safety[-1][2])] = ('load', 'const', a, n, None, None, ())
             mem = c.cmem
         return load_word(c, mem, a, n, self.implied_under(cond))       # ASSUME: little endian; byte loads zero-extend
 
     def store(self, st, cond, a, n, v, what):
         self.safety.append((list(cond), f'store {n} state bytes: {what}', self.safe_state(st, a, n)))
+        self.access_of[id(self.safety[-1][2])] = ('store', 'state', a, n, st.regs['ap'], st.regs['fp'], tuple(st.extents))
         st.mem = as_mem(st.mem).store(a, n, v)
         st.stores = st.stores + ((a, n, v, what),)
 
